@@ -174,7 +174,7 @@ def run_case(case):
         elif view and len(shape) >= 2:
             x = crandn(rng, shape[::-1], dtype).T        # non-contiguous input
         else:
-            with structured((sum(case["rs"]) // 3) % 9 if sum(case["rs"]) % 2 else 0) as skind:
+            with structured((sum(case["rs"]) // 3) % 10 if sum(case["rs"]) % 2 else 0) as skind:
                 x = crandn(rng, shape, dtype)
         sig = "|".join(map(str, [case["gen"], "i" if inverse else "f", len(shape),
                                  _parity(shape), case["akind"], center, norm,
